@@ -49,7 +49,8 @@ SPEC = {
     "C16": ["wholesym/src/file_creation.rs", "wholesym/src/breakpad.rs::write_symindex", "wholesym/src/downloader.rs::download_to_file"],
     "C18": ["samply/src/server.rs::generate_token,symbolication_service,start_server"],
     "C19": ["fxprof-processed-profile/src/library_info.rs", "samply/src/profile_json_preparse.rs", "wholesym/src/helper.rs::add_known_lib,fill_in_library_info_details",
-            "samply-symbols/src/shared.rs::from_str,fmt", "samply/src/linux_shared/converter.rs::add_module_to_process", "samply/src/shared/utils.rs::open_file_with_fallback"],
+            "samply-symbols/src/shared.rs::from_str,fmt", "samply/src/linux_shared/converter.rs::add_module_to_process,library_info_with_object", "samply/src/shared/utils.rs::open_file_with_fallback",
+            "samply-symbols/src/debugid_util.rs"],
     "C20": ["samply-api/src/asm/mod.rs", "samply-symbols/src/binary_image.rs::read_bytes_at_relative_address"],
 }
 
